@@ -112,7 +112,7 @@ def mutate(rng, tree, touched, foreign):
             fids.update(id(x) for x in ast.walk(n))
     nodes = [n for n in ast.walk(tree) if id(n) not in fids]
     kind = rng.choice(['replace_expr', 'replace_expr', 'swap_expr', 'dup_expr', 'prim', 'prim', 'del_stmt', 'ins_stmt', 'ins_stmt', 'move_stmt', 'reverse_body', 'dup_stmt',
-                       'foreign_stmt', 'foreign_expr', 'replace_stmt', 'set_elts', 'op'])
+                       'foreign_stmt', 'foreign_expr', 'replace_stmt', 'set_elts', 'op', 'foreign_pair', 'foreign_pair'])
     mark_touch = lambda n: touched.add(id(top_stmt_of(tree, pm, n) or n))
     exprs = [n for n in nodes if id(n) in pm and is_load_expr(n, pm)]
     if kind in ('replace_expr', 'foreign_expr') and exprs:
@@ -205,6 +205,43 @@ def mutate(rng, tree, touched, foreign):
         else:
             n.elts.append(new_expr(rng, True)[0])
         return f'set_elts {type(n).__name__}'
+    if kind == 'foreign_pair':
+        # consecutive entries taken from two different parents of the foreign tree with consecutive indices
+        fh = [(n, f) for n in ast.walk(foreign.a) for f in BODY_FIELDS + ('elts',) if isinstance(getattr(n, f, None), list) and len(getattr(n, f)) >= 2
+              and all(isinstance(x, (ast.stmt if f != 'elts' else ast.expr)) for x in getattr(n, f))]
+        rng.shuffle(fh)
+        for (p1, f1) in fh:
+            for (p2, f2) in fh:
+                if p1 is p2 or f1 != f2:
+                    continue
+                l1, l2 = getattr(p1, f1), getattr(p2, f2)
+                i = rng.randrange(0, min(len(l1), len(l2) - 1))
+                a1, a2 = l1[i], l2[i + 1]
+                if any(isinstance(z, (ast.Return, ast.Yield, ast.YieldFrom, ast.Await, ast.Nonlocal, ast.Global, ast.Break, ast.Continue, ast.Starred)) for x in (a1, a2) for z in ast.walk(x)):
+                    continue
+                if any(z is a2 for z in ast.walk(a1)) or any(z is a1 for z in ast.walk(a2)):
+                    continue
+                if f1 == 'elts':
+                    tg = [n for n in nodes if isinstance(n, (ast.List, ast.Tuple, ast.Set)) and isinstance(getattr(n, 'ctx', ast.Load()), ast.Load) and id(n) in pm and is_load_expr(n, pm)]
+                    if not tg or not all(isinstance(getattr(x, 'ctx', ast.Load()), ast.Load) for x in (a1, a2)):
+                        return None
+                    t = rng.choice(tg)
+                    mark_touch(t)
+                    k = rng.randrange(len(t.elts) + 1)
+                    t.elts[k:k] = [a1, a2]
+                    return 'foreign_pair elts'
+                hs = [(n, f) for n in nodes for f in BODY_FIELDS if isinstance(getattr(n, f, None), list) and getattr(n, f) and isinstance(getattr(n, f)[0], ast.stmt)]
+                if not hs:
+                    return None
+                h, f = rng.choice(hs)
+                body = getattr(h, f)
+                if h is not tree:
+                    mark_touch(h)
+                touched.update((id(a1), id(a2)))
+                k = rng.randrange(len(body) + 1)
+                body[k:k] = [a1, a2]
+                return f'foreign_pair {type(h).__name__}.{f}'
+        return None
     # statement lists
     holders = [(n, f) for n in nodes for f in BODY_FIELDS if isinstance(getattr(n, f, None), list) and getattr(n, f) and isinstance(getattr(n, f)[0], ast.stmt)]
     if not holders:
